@@ -874,6 +874,8 @@ static int32 parseSafeContents(psPool_t *pool, unsigned char *password,
                      CERT_STORE_UNPARSED_BUFFER)) < 0)
             {
                 psX509FreeCert(currCert);
+                /* the certificates collected from earlier bags */
+                psX509FreeCert(*cert);
                 *cert = NULL;
                 psTraceCrypto("Couldn't parse certificate from CertBag\n");
                 return rc;
